@@ -364,12 +364,14 @@ def clause3_batch(ctx, P, cg):
                    "write dispatch after a read callback is not guarded by current_ev != NULL (the read callback may have removed the entry)")
     # ... and so does every READ through the entry after the read dispatch (e.g. fetching ev->write_function for the test)
     rd = [i for (i, t) in disp if t[1][3] == "read_function"]
-    if rd:
-        hdrs = [h for h, body in he.loops().items() if rd[0].block in body]
-        after = he.reachable(rd[0].block, removed_blocks=tuple(hdrs))   # the rest of THIS iteration
+    done_sites = set()
+    for rdi in rd:
+        hdrs = [h for h, body in he.loops().items() if rdi.block in body]
+        after = he.reachable(rdi.block, removed_blocks=tuple(hdrs))   # the rest of THIS iteration
         for i in he.all_insts():
-            if i.op != "load" or i.block not in after or i.block == rd[0].block:
+            if i.op != "load" or i.block not in after or i.block == rdi.block or i.id in done_sites:
                 continue
+            done_sites.add(i.id)
             t = P.term(he, i.a[0])
             if t[0] == "field" and t[2] == "struct.io_event" and t[3] != "read_function":
                 def cur2(atom, pol):
